@@ -692,4 +692,70 @@ theorem spec2_pow (cfg : CheckCfg) (c : SCfg) (cs : List OTy) (m : Meta) (l r : 
         exact smok_pure ⟨_, rfl⟩
       · cases hrule
 
+/-! ### member access on struct-typed values -/
+
+/-- a struct type is classified as an object (it is neither scalar nor a slice) -/
+theorem vtyOf_obj_of {t : OTy} (hV : vtyOf t = some (.obj t)) (v : Val) (n : Nat) :
+    Conf (n + 1) v t ↔ ∀ name τ, fieldTypeT .asIs t name = some τ →
+      ∃ w, (∀ ns, fetchV v (.str name) ns = .ok w) ∧ Conf n w (some τ) := by
+  simp only [Conf, hV]
+
+/-- `x.name` / `x?.name` for `x` of struct (or pointer-to-struct) type, name resolution as in the current
+code (`cfg.dn = NDefects.asIs`) -/
+theorem spec2_prop (cfg : CheckCfg) (c : SCfg) (cs : List OTy) (hdn : cfg.dn = NDefects.asIs) (m : Meta) (x : Node)
+    (name : String) (nilsafe : Bool) (ihx : Spec2 E cfg c cs x)
+    (hx : ∀ t, synth cfg cs x = some t → vtyOf t = some (.obj t)) :
+    Spec2 E cfg c cs (.prop m x name nilsafe) := by
+  intro τ V hs hV st hst
+  simp only [synth] at hs
+  cases hsx : synth cfg cs x with
+  | none => rw [hsx] at hs; cases hs
+  | some t =>
+    rw [hsx] at hs
+    simp only [] at hs
+    have hrule := toOption'_some hs
+    have hVt := hx t hsx
+    obtain ⟨e1, _, ev1⟩ := ihx t (.obj t) hsx hVt st hst
+    rcases hxv : visit cfg x st with ⟨x', t', st1⟩
+    rw [hxv] at e1 ev1
+    simp only [] at e1 ev1
+    subst e1
+    -- the rule found the member
+    have hft : ∃ ft, fieldTypeT .asIs t' name = some ft ∧ τ = some ft := by
+      unfold propRule at hrule
+      rw [hdn] at hrule
+      cases hf : fieldTypeT NDefects.asIs t' name with
+      | some ft => rw [hf] at hrule; cases hrule; exact ⟨ft, rfl, rfl⟩
+      | none =>
+        rw [hf] at hrule
+        simp only [] at hrule
+        split at hrule
+        · cases hrule
+        · cases hrule
+          have : vtyOf none = none := by decide
+          rw [this] at hV; cases hV
+    obtain ⟨ft, hft, rfl⟩ := hft
+    simp only [visit, hxv, hrule, orFail_ok]
+    refine ⟨trivial, setKd_kd _ _, ?_⟩
+    apply smok_evalOKV
+    intro ctx hctx
+    show SMOK E (fun v => ValOfV v V) (eval c ctx (.prop { m with kd := OTy.kind (some ft) } x' name nilsafe))
+    simp only [eval]
+    refine smok_bind (evalOKV_smok ev1 ctx hctx) ?_
+    intro v hv
+    have hv' : ∀ n, Conf n v t' := hv
+    -- the member's value, the same at every depth
+    obtain ⟨w, hw, _⟩ := ((vtyOf_obj_of hVt v 0).1 (hv' 1)) name ft hft
+    have hconf : ∀ n, Conf n w (some ft) := by
+      intro n
+      obtain ⟨w', hw', hc⟩ := ((vtyOf_obj_of hVt v n).1 (hv' (n + 1))) name ft hft
+      have : w' = w := by
+        have h1 := hw' false
+        rw [hw false] at h1
+        cases h1; rfl
+      rw [this] at hc
+      exact hc
+    rw [hw nilsafe]
+    exact smok_lift (conf_valOfV hV hconf)
+
 end ExprModel
